@@ -557,8 +557,8 @@ def run(ctx):
         cs.append(Case(c.threads, c.queue, c.progs, c.bodies, policy="n"))
         for k in range(10 if ctx.quick else 60):
             cs.append(Case(c.threads, c.queue, c.progs, c.bodies, policy="r", seed=rng.getrandbits(40), stay=rng.choice([0, 30, 60, 85]), fault=rng.choice([30, 60, 100])))
-    for prg in ([["r3", "a0", "j"]], [["a0", "r3"]], [["r2"], ["r3"]]):     # small enough for the search to exhaust every failure point
-        cs.append(Case(1, 0, prg, [[]], policy="n", explore=1, maxruns=4000))
+    for prg in ([["r2", "a0", "j"]], [["a0", "r3"]], [["r2"], ["r2"]]):     # small: the search goes through every failure point (see fault_explore)
+        cs.append(Case(1, 0, prg, [[]], policy="n", explore=1, maxruns=2500 if ctx.quick else 40000))
     oks, bads, xs, err = runner.run(cs, "fault")
     tally(ctx, oks)
     ctx.sample(cs[1].line(0))
